@@ -49,6 +49,37 @@ def run(rep, tier, seed, b):
             rep.count('rejected:' + im['err'])
     for it, r in list(zip(items, res))[:6]:
         rep.sample({'selfies': it[1], 'table': 'preset' if it[0] in presets else it[0], 'impl': r['impl']})
+    # the table in force after a history of calls (tables set, decodes that fill the caches, the caller editing the dict it passed):
+    # every later output must obey the constraints the library reports
+    import hist_common as H
+    d = drv()
+    probes = ['[O][=S][=Branch1][C][=O][=O]', '[C][N][Branch1][C][C][Branch1][C][C][Branch1][C][C][C]', '[C][=C][=C][=C]', '[F][P][Branch1][C][F][Branch1][C][F][Branch1][C][F][F]',
+              '[C][O][Branch1][C][C][C]', '[C][#S][#C]', '[Cl][Branch1][C][C][C]', '[C][=N][=C]']
+    for _ in range(80 if tier == 'quick' else 1500):
+        d0 = H.random_dict(rng, valid=True)
+        for kv in d0:
+            if isinstance(kv[1], bool):
+                kv[1] = int(kv[1])
+        ops = [['new', d0], ['set', ['held', 0]]] + [['dec', x, False, False] for x in rng.sample(probes, 3)]
+        ops += [['mut', 0, ['setitem', rng.choice(['N', 'S', 'O', 'C', 'P', 'Cl', '?']), rng.choice([0, 1, 2, 5, 7])]] for _ in range(2)]
+        tail = [['dec', x, False, False] for x in probes] + [['dec', gens.live_selfies(rng, maxlen=20), False, False] for _ in range(4)]
+        im = H.impl_run(ops + [['get']] + tail)
+        rep.evaluations += len(tail)
+        rep.impl_traces += 1
+        if not isinstance(im, list) or not im[len(ops)] or 'dict' not in im[len(ops)]:
+            continue
+        reported = {k: v for k, v in im[len(ops)]['dict'] if k is not None}
+        if '?' not in reported or any((not isinstance(v, int)) or v < 0 for v in reported.values()):
+            rep.count('history: reported table not a valid table (not judged)')
+            continue
+        for op, o in zip(tail, im[len(ops) + 1:]):
+            t = (o or {}).get('trans') or {}
+            if 'ok' in t:
+                out = t['ok'][0]
+                rep.count('history: decoded')
+                if not d.one(['valid', core.T(reported), S(out)]):
+                    rep.oracle_failures.append({'clause': 'decoder output obeys the constraints in force (as reported by get_semantic_constraints) after a history of calls',
+                                                'input': {'ops': ops + [['get'], op]}, 'impl': out, 'reported_table': reported, 'klass': classify(out)})
     # RDKit (sampled support, default table + robust alphabet)
     if tier == 'thorough':
         try:
@@ -68,7 +99,8 @@ def run(rep, tier, seed, b):
         except ImportError:
             rep.notes.append('rdkit not importable: sanitizer clause not sampled')
     rep.rule = ('state-aware live sampler + malformed variants x %d tables (3 presets + random custom incl. capacity 0 and >8); all strings of length <= %d '
-                'over a 15-symbol rule-covering set (default table) and length <= %d under a tight custom table; ring-count and nesting families. '
+                'over a 15-symbol rule-covering set (default table) and length <= %d under a tight custom table; ring-count and nesting families; histories in fresh interpreters '
+                '(custom table, decodes, the caller editing the dict it passed) whose later outputs are judged against the reported table. '
                 'non-trivial = distinct (string, table) whose output has >= 3 atoms and a branch or ring' % (len(tabs), L, L - 1))
     rep.exhaustive = False
 
@@ -92,6 +124,15 @@ def known(f):
 def replay(data):
     f = data['failure']
     i = f['input']
+    if 'ops' in i:
+        import hist_common as H
+        im = H.impl_run(i['ops'])
+        ok = True
+        if isinstance(im, list):
+            rep_t = {k: v for k, v in (im[-2] or {}).get('dict', []) if k is not None}
+            t = ((im[-1] or {}).get('trans') or {})
+            ok = 'ok' not in t or bool(drv().one(['valid', core.T(rep_t), S(t['ok'][0])]))
+        return {'ops': i['ops'], 'impl': im, 'fails': not ok}
     r = dec_side.work([(i['table'], i['selfies'], False, False)], {'valid': True})[0]
     return {'input': i, 'impl': r['impl'], 'model': r['model'], 'valid_smiles_under': r.get('valid'),
             'fails': ('ok' in r['impl'] and not r.get('valid'))}
